@@ -133,6 +133,12 @@ def check_medium(case):
     return v
 
 
+def tiny_cases():
+    for g in games.tiny_reach_games():
+        for route in ("prune", "batch"):
+            yield dict(game=g, route=route)
+
+
 def slow_cases():
     for g in games.slow_choice_games():
         for route in ("prune", "no_prune", "batch"):
@@ -142,6 +148,8 @@ def slow_cases():
 def phases(tier):
     return [Phase("planted-zero-value-shapes", enum=planted),
             Phase("slow-rewarded-loops", enum=slow_cases, note="solves that need 10^3..10^5 sweeps"),
+            Phase("tiny-positive-values", enum=tiny_cases,
+                  note="values and live probability masses from 1e-6 down to subnormal floats"),
             Phase("medium-size-games", enum=medium_phase(tier), note="stopping games of 20-300 states"),
             Phase("cut-corridors", enum=cut_corridor_phase(tier),
                   note="a corridor of 1100+ non-Player-1 states that conditioning makes unreachable (removal cascade)"),
